@@ -14,6 +14,9 @@ META = {
 }
 
 
+from .coverage import coverage
+
+
 def run(ctx):
     F, P, R = ctx.F, ctx.P, ctx.run
     R.explanation = META['text']
@@ -82,3 +85,5 @@ def run(ctx):
             roles.setdefault('removal', m)
     R.ob('C06.abort', ('AbortHandle::abort', 'roles'), set(roles) == {'drop', 'expiry', 'removal'}, 'the three abort sites are the cancel removal, the expiry and Drop', [m.loc(m.d) for m in roles.values()])
     R.count('functions_analysed', len(table.methods) + 2)
+    # source coverage while blocked (E-SHAPE): known finding D5 for limiter chains
+    coverage(ctx, 'C06.cover', ('T',))
